@@ -15,11 +15,36 @@ package jsonrpc
 //@   ensures (result == nil) <==> sane(*r)
 //@ ghost var buildOK bool
 //@ ghost var builtArgs []reflect.Value
-//@ func (*Server).buildArguments
+// Argument binding is reflection over the handler's type; what is under contract is its control
+// flow: a named parameter is reported missing only if the caller did not send it, and each
+// parameter the caller sent is parsed exactly as sent. reflect, json and the validator are
+// assumed entry points; parseParam is trusted and records its calls.
+//@ extern func reflect.TypeOf
+//@ extern func reflect.New
+//@ extern func reflect.Type.NumIn
+//@ extern func reflect.Type.Kind
+//@ extern func reflect.Type.In
+//@ extern func reflect.(Value).Len
+//@ extern func reflect.(Value).Elem
+//@ extern func strings.Join
+//@ extern func github.com/NethermindEth/juno/utils.Filter
+//@ extern func github.com/NethermindEth/juno/utils.Map
+//@ func (*Server).parseParam
 //@   trusted
+//@   logged
+//@ func (*Server).buildArguments
+//@   props C11
+//@   arith int
+//@   nosafe
+//@   modifies *
+//@   assigns calls_parseParam, arg_parseParam_param, arg_parseParam_t
 //@   logged
 //@   sets buildOK = (result1 == nil)
 //@   sets builtArgs = result0
+//@   callsite errors.New@3: missing_only_if_absent: !found && !configuredParam.Optional
+//@   callsite reflect.New@1: zero_only_if_absent: !found && configuredParam.Optional
+//@   callsite parseParam@2: positional_as_sent: $1 == param
+//@   callsite parseParam@1: named_as_sent: found && $1 == param
 //@ extern func reflect.ValueOf
 //@ extern func reflect.(Value).Call
 //@   logged as Call
